@@ -15,8 +15,8 @@ SPEC = dict(
                 "byte-exact / decision-exact under vm_compute. The property's end-to-end clauses (optional deltas within "
                 "tolerance after the spec's inference; gvar read-back; outline at a location = default + sum scalar*delta up to "
                 "final rounding, drawn by skrifa from a FontBuilder font at region start/peak/end) are checked on the "
-                "implementation by exact-rational oracles over ~860k optimiser inputs (exhaustive small contours), 220 gvar "
-                "tables and 5.7k draws — partial for those clauses."),
+                "implementation by exact-rational oracles over ~860k optimiser inputs (exhaustive small contours), 270 gvar "
+                "tables (incl. exact 63..257-point sparse tuples, both read paths) and 11.9k draws (glyphs with and without data, composites, reused memory, both scalers) — partial for those clauses."),
     level_note=("Trusted: Coq kernel; the hand-written model coq/C10/Model.v (agreement with the Rust code is checked, not proved); "
                 "the rational kernel equals the f64 kernel only where the harness's f64 mirror and exact arithmetic agree (cases "
                 "where they do not are not sent to the model; none occurred). Not proved: DP optimality, "
